@@ -221,7 +221,11 @@ def context_paths(stmts, dict_name, base_dicts, is_load, max_paths=512):
                     cur = run(s.body, nxt)
                 out = cur
             else:
-                raise AnalysisError('loop over a non-literal sequence inside the context-building block')
+                touches = any((isinstance(n, ast.Name) and n.id == dict_name) or (isinstance(n, ast.Call) and is_load(n)) or
+                              isinstance(n, (ast.Continue, ast.Break, ast.Return)) for n in ast.walk(s))
+                if touches:
+                    raise AnalysisError('loop over a non-literal sequence touches the context dictionary inside the context-building block')
+                out = states          # irrelevant to the context
         elif isinstance(s, (ast.Continue, ast.Return, ast.Break, ast.Raise)):
             out = []
         elif isinstance(s, ast.Assign):
